@@ -1351,7 +1351,7 @@ class Gen(object):
     def scene(self, name=None):
         r = self.rng
         name = name or r.choice(["topic", "captcha", "gates", "privs", "oper", "services", "limits", "holds", "quitlink",
-                                 "latelink", "reincarnate", "away", "invisible"])
+                                 "latelink", "reincarnate", "away", "invisible", "manychans"])
         cast = self._cast()
         if cast is None:
             return
@@ -1445,7 +1445,11 @@ class Gen(object):
             M(L, b":%s JOIN %s" % (p1, c2))
             M(L, b":%s MODE %s +o %s" % (p1, c, m.nick or b"m"))
             M(L, b":%s SVSJOIN %s %s" % (p1, x.nick or b"x", c))
-            M(L, b":%s KICK %s %s :akick" % (p1, c, m.nick or b"m"))
+            if r.random() < 0.5:
+                M(o, b"MODE %s -t" % c)
+            M(L, b":%s KICK %s %s :akick" % (p1, self._scramble(c) if r.random() < 0.6 else c, m.nick or b"m"))
+            M(m, b"TOPIC %s :set by somebody who was just kicked" % c)     # no longer on the channel
+            M(m, b"NICK %s" % r.choice(self.nicks))                          # must not be announced to the channel
             M(L, b":%s PART %s" % (p1, c2))
             M(L, b":%s SVSPART %s %s" % (p1, x.nick or b"x", c))
             M(L, b":%s PRIVMSG %s :%s" % (p1, r.choice([c, x.nick or b"x"]), t()))
@@ -1493,6 +1497,18 @@ class Gen(object):
                 M(L2, b"SERVER services%d.example 1 :Late services" % r.randint(2, 9))
                 if self.link is None or not self.link.alive:
                     self.link = L2
+        elif name == "manychans":
+            # a channel list longer than one IRC line (WHOIS 319, services burst): what is cut off must not depend on
+            # the order in which the map is traversed
+            if not (self.cfg and self.cfg.get("maxc")):
+                tag = bytes([r.choice(b"abcdefgh")]) * 26
+                for n_ in range(r.choice([18, 24, 30])):
+                    cn = b"#" + tag + b"%02d" % n_
+                    M(m, b"JOIN " + cn)
+                    m.chans.add(chan_to_lower(cn))
+                M(x, b"WHOIS %s" % (m.nick or b"m"))
+                M(o, b"WHOIS %s" % (m.nick or b"m"))
+                M(m, b"LIST")
         elif name == "away":
             # RPL_AWAY wherever somebody addresses an away user
             M(x, b"AWAY :%s" % (t() or b"gone"))
@@ -2127,6 +2143,7 @@ def mon_c17(tr):
     newest = 0
     P = None
     ended_clients = {}
+    ref_la = {}        # session id -> last activity according to the ENTRIES (what the expiry sweep must be based on)
     wall = tr.wall
     for i, (e, st) in enumerate(zip(tr.entries, tr.steps)):
         if not st.ran:
@@ -2135,6 +2152,17 @@ def mon_c17(tr):
         Q = st.st
         if "id" in e:
             newest = max(newest, e["id"])
+        if k == "C" and st.outcome == "ok":
+            ref_la[e["id"]] = e["ts"] if e["ts"] != 0 else e["id"]
+        elif k in ("M", "X") and st.outcome != "skip":
+            ref_la[e["sid"]] = e["ts"] if e["ts"] != 0 else e["id"]
+        if Q is not None:
+            for (sid, rp), s_ in Q.sessions.items():
+                if rp == 0 and s_ and s_["la"] is not None and sid in ref_la and s_["la"] != ref_la[sid]:
+                    F.append(("c17:lastactivity-drift" + (":restore" if k == "S" else ""),
+                              "last activity of session %d is %r after %s, its last applied entry has %r — the expiry sweep works on the wrong time" % (
+                                  sid, s_["la"], entry_text(e), ref_la[sid]), i))
+                    ref_la[sid] = s_["la"]     # report once
         for m in st.msgs:
             bad = [x for x in m.rcpt if x in ended_clients and ended_clients[x] < i]
             if bad:
@@ -2734,6 +2762,20 @@ def mon_c13(tr, secret=None):
         if Q is None:
             continue
         k = e["k"]
+        if P is not None and k == "S":
+            # save + load must not grant or lift anything: modes, key, bans, operator/voice flags, invitations
+            for lc_, c_ in P.channels.items():
+                d_ = Q.channels.get(lc_)
+                if d_ is None:
+                    F.append(("c13:restore:channel-lost", "save+load lost channel %r" % lc_, i))
+                    continue
+                for f_ in ("modes", "key", "bans", "m"):
+                    if c_["raw"].get(f_) != d_["raw"].get(f_):
+                        F.append(("c13:restore:" + f_, "save+load changed %s of %r: %s -> %s" % (f_, lc_, c_["raw"].get(f_), d_["raw"].get(f_)), i))
+            for key_, a_ in P.sessions.items():
+                b_ = Q.sessions.get(key_)
+                if a_ and b_ and (a_["inv"] != b_["inv"] or a_["op"] != b_["op"] or a_["srv"] != b_["srv"]):
+                    F.append(("c13:restore:session-privileges", "save+load changed invitations/operator/services status of %r" % (key_,), i))
         if P is None or k in ("S", "E", "G", "P"):
             P = Q
             continue
